@@ -1120,6 +1120,44 @@ func c02ResultUntouched(c *Ctx) {
 				}
 			}
 			follow(res, 0)
+			// ... and what the function answers with after the handler has run is the handler's object, not a new one
+			// of the same type assembled from parts of it (members the assembly does not copy — _meta, flags — are lost)
+			if bad == "" {
+				ir.EachInstr(fn, func(blk *ssa.BasicBlock, _ int, in2 ssa.Instruction) {
+					ret, ok := in2.(*ssa.Return)
+					if !ok || blk == fn.Recover || len(ret.Results) == 0 || !flow.Reaches(call, ret) {
+						return
+					}
+					var fresh func(v ssa.Value, d int) bool
+					fresh = func(v ssa.Value, d int) bool {
+						if d > 4 {
+							return false
+						}
+						switch x := v.(type) {
+						case *ssa.MakeInterface:
+							return fresh(x.X, d+1)
+						case *ssa.Alloc:
+							if p, ok := x.Type().(*types.Pointer); ok {
+								return types.Identical(p.Elem(), nt)
+							}
+						case *ssa.Phi:
+							for _, e := range x.Edges {
+								if fresh(e, d+1) {
+									return true
+								}
+							}
+						case *ssa.UnOp:
+							if u := unspill(x); u != ssa.Value(x) {
+								return fresh(u, d+1)
+							}
+						}
+						return false
+					}
+					if fresh(ir.Results(ret)[0], 0) {
+						bad = sprintf("answers (at %s) with a new %s assembled after the handler returned", c.Pos(ret.Pos()), nt.Obj().Name())
+					}
+				})
+			}
 			c.R.Check(bad == "", "R-result-untouched", construct, c.Pos(call.Pos()), "the object the handler returned is not written to before it is encoded",
 				sprintf("%s calls a registered handler and then %s: what goes to the encoder is not what the handler returned (an item added, a flag changed), so the caller does not receive the handler's result", fname(fn), bad))
 		})
